@@ -174,3 +174,12 @@ Proof.
     destruct (simd_apply_lanewise 0 lanes Hl (g_affine ty) (N.to_nat unroll) xs) as [t [H _]].
     rewrite H. reflexivity.
 Qed.
+
+(* the three-accumulator fold_n of the harness = the three masked single-accumulator folds *)
+Lemma model_fold_n_is_three_folds ty unroll opk lanes xs :
+  model_slice ty 7 unroll opk lanes xs = model_slice ty 5 unroll opk lanes xs.
+Proof.
+  cbn [model_slice]. unfold f3.
+  rewrite (iter_fold_n_componentwise 0 lanes [vadd ty; vmin; vmax]) by reflexivity.
+  cbn [combine map fst snd concat]. rewrite app_nil_r. reflexivity.
+Qed.
